@@ -1,5 +1,5 @@
 """C03 -- timing simulation settles to the Boolean function for any delays/capacity."""
-from contracts import wave_c, wave_kernels_c, wave_comp_c
+from contracts import wave_c, wave_kernels_c, wave_comp_c, alloc_c, graph_c
 from pyvc.verify import verify
 from vk.common import PropertyResult
 from bounded import wave_parts
@@ -16,7 +16,7 @@ def run(tier, seed):
                          'every simulated lane, a well-formed waveform whose initial and final values are the gate-by-gate netlist values -- invariant over the two nested loops and the '
                          'level loop, callee by contract. WaveSim.s_to_c writes, for every (pseudo) primary input and lane, exactly the waveform encoding of its (initial, time, final) assignment into the first three entries of its slot and nothing else. Tier B (bounded): SimOps translation and the whole chain on real runs against the netlist oracle incl. '
                          'overflowing capacities.')
-    res.report = verify(wave_c.targets() + wave_kernels_c.targets_c13() + wave_kernels_c.targets_assign() + wave_comp_c.targets() + wave_comp_c.targets_s_to_c() + wave_comp_c.targets_c13(), timeout_s=30 if tier == 'quick' else 120)
+    res.report = verify(wave_c.targets() + wave_kernels_c.targets_c13() + wave_kernels_c.targets_assign() + wave_comp_c.targets() + wave_comp_c.targets_s_to_c() + wave_comp_c.targets_c13() + alloc_c.targets() + graph_c.targets_stems(), timeout_s=30 if tier == 'quick' else 120)
     res.bounded = [wave_parts.part_c03(tier, seed)]
     res.assumptions = ['A-float: time stamps are extended reals (TMIN=-inf, TMAX=+inf, TMAX_OVL a larger +inf; sentinel + delay absorbs; finite + delay exact and below TMAX; '
                        't - TMIN exceeds every delay); rounding of finite float32/float64 sums is not modelled; Q2 uses of this model only that a sentinel plus a delay stays a sentinel',
